@@ -23,4 +23,9 @@ def kpool (t : Tokens) : String :=
 while still bound, every unanswered call fails after a fault, later calls fail on a dead link. -/
 def kmux (_ : Tokens) : String := "foreign=0 hung=0 duptag=0 reuse= errsok=1 laterok=1"
 
+/-- kmuxfid: a fid whose Tclunk is unanswered is outstanding in the pool model (Put happens after
+the reply): an allocation in between never returns it (`Pool` invariant: no duplicates among
+cache ++ outstanding) -/
+def kmuxfid (_ : Tokens) : String := "formed=1 inflight_reuse=0"
+
 end P9.Driver
